@@ -59,8 +59,11 @@ void hx_child_begin(const vs_dev_t *devs, int ndevs, int record_trace, void *(*e
  * (simulated bus restored, transcript and pending uplink bytes cleared).  Everything the harness then explores happens in
  * the process's SECOND session; vcheck compares the per-execution outcomes with those of the cold run. */
 #include "simbus.h"
-void bidib_stop(void); void bidib_flush(void);
+void bidib_stop(void); void bidib_flush(void); uint8_t *bidib_read_message(void); uint8_t *bidib_read_error_message(void);
 int bidib_ping(const char *board, uint8_t ping_byte);
+typedef struct { uint8_t top, sub, subsub; } t_bidib_node_address;
+void bidib_send_sys_ping(t_bidib_node_address node, uint8_t ping_byte, unsigned int action_id);
+static int warm_drop(int node, const rc_msg_t *m) { (void) node; (void) m; return 1; }
 static void hx_warm_session(int debug, unsigned flush) {
 	const char *w = getenv("VERIF_WARM"); if (!w || !atoi(w) || warm_state) return;
 	warm_state = 1;
@@ -68,12 +71,21 @@ static void hx_warm_session(int debug, unsigned flush) {
 	void (*saved_hook)(const uint8_t *, int32_t) = env_on_write;
 	int (*saved_on_msg)(int, const rc_msg_t *) = SB.on_msg; SB.on_msg = NULL;      /* the earlier session talks to a bus that answers everything */
 	bidib_set_lowlevel_debug_mode(debug ? 1 : 0);
+	SB.pkt_capacity = 200;              /* the earlier session's interface announces a larger packet capacity ... */
 	int rc = bidib_start_pointer(env_read, env_write, debug ? NULL : ENV_CFG_DIR, flush);
 	vs_idle_wait();
 	if (rc == 0) {
+		/* ... and leaves as much per-session state behind as it can: advanced sequence numbers, a stalled sub-node, a node
+		 * whose budget is exhausted by unanswered requests with messages held behind it, unread queue entries */
+		t_bidib_node_address a0 = {0, 0, 0}, a1 = {1, 0, 0};
 		if (!debug) { bidib_ping("master", 0x42); bidib_flush(); vs_idle_wait(); }
+		else { uint8_t cap = 200, m[16], f[40]; static const uint8_t z[4] = {0, 0, 0, 0}; int ml = rc_build_msg(m, z, 0, 0x8A /* MSG_PKT_CAPACITY */, &cap, 1); env_push_quiet(f, rc_frame(f, m, (size_t) ml, 1)); vs_point(); vs_idle_wait(); }
 		vs_sleep_us(2500000); vs_idle_wait();
-		uint8_t *m; while ((m = bidib_read_message())) free(m); while ((m = bidib_read_error_message())) free(m);
+		{ uint8_t on = 1, m[16], f[40]; static const uint8_t s1[4] = {1, 0, 0, 0}; int ml = rc_build_msg(m, s1, 0, 0x8E /* MSG_STALL */, &on, 1); env_push_quiet(f, rc_frame(f, m, (size_t) ml, 1)); vs_point(); vs_idle_wait(); }
+		SB.on_msg = warm_drop;
+		for (int i = 0; i < 11; i++) bidib_send_sys_ping(a0, (uint8_t) i, 0);
+		bidib_send_sys_ping(a1, 0x55, 0);
+		bidib_flush(); vs_idle_wait();
 		bidib_stop(); vs_idle_wait();
 	}
 	memcpy(&SB, &saved, sizeof SB); SB.on_msg = saved_on_msg; env_on_write = saved_hook;
